@@ -132,11 +132,52 @@ def matrixToQuatG {K : Type} [Add K] [Sub K] [Mul K] [Div K] [OfNat K 0] [OfNat 
   | 2 => let d := sqrt s * (1 + 1); ⟨(m.m20 + m.m02) / d, (m.m21 + m.m12) / d, s / d, (m.m10 - m.m01) / d⟩
   | _ => let d := sqrt w * (1 + 1); ⟨(m.m21 - m.m12) / d, (m.m02 - m.m20) / d, (m.m10 - m.m01) / d, w / d⟩
 
+/-- the transcendental functions (and the constant π) used by the rotation-vector conversions, as
+parameters: `F.floatTrig` is the `Float` instance, `Mrpro/Lemmas/RotvecL.lean` reasons about any instance
+over ℝ that satisfies a specification -/
+structure TrigOps (K : Type) where
+  sqrt : K → K
+  sin : K → K
+  cos : K → K
+  /-- `atan2 y x` (argument order of `torch.atan2` / `Float.atan2`) -/
+  atan2 : K → K → K
+  pi : K
+
+section RotvecG
+variable {K : Type} [Mul K] [Div K] [OfNat K 0] [OfNat K 1] [OfNat K 2] [BEq K]
+
+/-- `torch.sinc`: `sin(πx)/(πx)`, `1` at `x == 0` -/
+def sincG (T : TrigOps K) (x : K) : K := if x == 0 then 1 else T.sin (T.pi * x) / (T.pi * x)
+
+variable [Add K]
+
+/-- `from_rotvec` (proper part) over any scalar type: `angle = ‖v‖`, `q = (sinc(angle/(2π))/2 · v, cos(angle/2))`.
+`F.fromRotvec` is this function at `F.floatTrig`. -/
+def fromRotvecG (T : TrigOps K) (v : V3 K) : Q K :=
+  let ang := T.sqrt (v.x0 * v.x0 + v.x1 * v.x1 + v.x2 * v.x2)
+  let x := ang / (2 * T.pi)
+  let sinc := sincG T x
+  let sc := sinc / 2
+  ⟨sc * v.x0, sc * v.x1, sc * v.x2, T.cos (ang / 2)⟩
+
+/-- `as_rotvec` on a canonical quaternion over any scalar type: `angle = 2·atan2(‖(a,b,c)‖, w)`,
+`v = 2/sinc(angle/(2π)) · (a,b,c)`. `F.toRotvec` is this function at `F.floatTrig`. -/
+def toRotvecG (T : TrigOps K) (q : Q K) : V3 K :=
+  let ang := 2 * T.atan2 (T.sqrt (q.a * q.a + q.b * q.b + q.c * q.c)) q.w
+  let x := ang / (2 * T.pi)
+  let sinc := sincG T x
+  let sc := 2 / sinc
+  ⟨sc * q.a, sc * q.b, sc * q.c⟩
+end RotvecG
+
 /-! ### conversions over `Float` -/
 namespace F
 
 def pi : Float := 3.141592653589793
 def hypot (a b : Float) : Float := Float.sqrt (a * a + b * b)
+
+/-- the `Float` transcendental functions; `pi` is the double nearest to π -/
+def floatTrig : TrigOps Float := ⟨Float.sqrt, Float.sin, Float.cos, Float.atan2, pi⟩
 
 /-- `_canonical_quaternion`: `w ≥ 0`, ties broken on x, y, z (which are components 2, 1, 0 for
 `AXIS_ORDER = 'zyx'`; the index map is a parameter) -/
@@ -186,20 +227,10 @@ def toEuler (quat : Q Float) (seq : List Nat) (extrinsic : Bool) : List Float :=
 def matrixToQuat (m : Mat3 Float) : Q Float := matrixToQuatG Float.sqrt m
 
 /-- `from_rotvec` (proper part) -/
-def fromRotvec (v : V3 Float) : Q Float :=
-  let ang := Float.sqrt (v.x0 * v.x0 + v.x1 * v.x1 + v.x2 * v.x2)
-  let x := ang / (2 * pi)
-  let sinc := if x == 0 then 1 else Float.sin (pi * x) / (pi * x)
-  let sc := sinc / 2
-  ⟨sc * v.x0, sc * v.x1, sc * v.x2, Float.cos (ang / 2)⟩
+def fromRotvec (v : V3 Float) : Q Float := fromRotvecG floatTrig v
 
 /-- `as_rotvec` on a canonical quaternion -/
-def toRotvec (q : Q Float) : V3 Float :=
-  let ang := 2 * Float.atan2 (Float.sqrt (q.a * q.a + q.b * q.b + q.c * q.c)) q.w
-  let x := ang / (2 * pi)
-  let sinc := if x == 0 then 1 else Float.sin (pi * x) / (pi * x)
-  let sc := 2 / sinc
-  ⟨sc * q.a, sc * q.b, sc * q.c⟩
+def toRotvec (q : Q Float) : V3 Float := toRotvecG floatTrig q
 
 def normalize (q : Q Float) : Q Float :=
   let n := Float.sqrt q.normSq
